@@ -43,6 +43,9 @@ pub enum Step {
     /// bytes that do not decode as the factory's SudoMsg
     Bad(String),
     Create(CreateReq),
+    /// observation probe: a CreateMinter judged against the harness ledger of what governance
+    /// supplied; `target` names the parameter the request discriminates (old vs new value)
+    Probe { req: CreateReq, target: String },
 }
 
 #[derive(Clone, Debug, PartialEq, Eq, Serialize, Deserialize)]
@@ -53,6 +56,9 @@ pub enum Case {
     MintFee { kind: MinterKind, price: u128, bps: u64, new_dev: bool },
     /// base minter: set mint_fee_bps, then mint paying `paid`
     BaseMint { bps: u64, paid: u128 },
+    /// set airdrop_mint_price / airdrop_mint_fee_bps / shuffle_fee on the factory of an existing
+    /// minter, then admin MintTo at the old and the new price, Shuffle at the old and the new fee
+    AirdropShuffle { kind: MinterKind, price: u128, bps: u64, shuffle: u128 },
 }
 
 fn oc(c: &Option<C>) -> Value {
@@ -484,6 +490,148 @@ fn monitor_create(kind: FactoryKind, r: &CreateReq, ok: bool, params: &Value, cr
     out
 }
 
+// ---------------------------------------------------------------- ledger-judged observation probes
+
+/// "precisely the supplied fields replaced": the harness's own record of an accepted message
+fn ledger_apply(kind: FactoryKind, l: &mut FParams, ids: &mut BTreeSet<u64>, u: &Upd) {
+    if let Some(x) = u.code_id {
+        l.code_id = x;
+    }
+    for x in u.add.iter().flatten() {
+        ids.insert(*x);
+    }
+    for x in u.rm.iter().flatten() {
+        ids.remove(x);
+    }
+    if let Some(x) = u.frozen {
+        l.frozen = x;
+    }
+    if let Some(x) = &u.creation_fee {
+        l.creation_fee = x.clone();
+    }
+    if let Some(x) = u.offset {
+        l.offset = x;
+    }
+    if kind != FactoryKind::TokenMerge {
+        if let Some(x) = &u.min_mint_price {
+            l.min_mint_price = x.clone();
+        }
+        if let Some(x) = u.mint_fee_bps {
+            l.mint_fee_bps = x;
+        }
+    }
+    if kind != FactoryKind::Base {
+        if let Some(x) = u.max_token_limit {
+            l.max_token_limit = x;
+        }
+        if let Some(x) = u.max_per_address_limit {
+            l.max_per_address_limit = x;
+        }
+        if let Some(x) = &u.airdrop_mint_price {
+            l.airdrop_mint_price = x.clone();
+        }
+        if let Some(x) = u.airdrop_mint_fee_bps {
+            l.airdrop_mint_fee_bps = x;
+        }
+        if kind == FactoryKind::OpenEdition {
+            if let Some(x) = &u.dev_fee_address {
+                l.dev_fee_address = x.clone();
+            }
+        } else if let Some(x) = &u.shuffle_fee {
+            l.shuffle_fee = x.clone();
+        }
+    }
+}
+
+/// the parameters of the ledger a request does not respect (documented creation rules)
+fn unmet(kind: FactoryKind, r: &CreateReq, l: &FParams, ids: &BTreeSet<u64>) -> Vec<&'static str> {
+    let mut v = vec![];
+    if l.frozen {
+        v.push("frozen");
+    }
+    if !ids.contains(&r.collection_code_id) {
+        v.push("allowed_sg721_code_ids");
+    }
+    let fee_ok = r.funds.len() == 1
+        && r.funds[0].0 == l.creation_fee.0
+        && r.funds[0].1 > 0
+        && if kind == FactoryKind::OpenEdition { r.funds[0].1 == l.creation_fee.1 } else { r.funds[0].1 >= l.creation_fee.1 };
+    if !fee_ok {
+        v.push("creation_fee");
+    }
+    if kind != FactoryKind::Base {
+        match r.num_tokens {
+            Some(x) if x == 0 || x > l.max_token_limit => v.push("max_token_limit"),
+            _ => {}
+        }
+        if r.per_address_limit == 0 || r.per_address_limit > l.max_per_address_limit {
+            v.push("max_per_address_limit");
+        }
+        if let Some(t) = r.trading_after_start_secs {
+            if t > l.offset {
+                v.push("max_trading_offset_secs");
+            }
+        }
+    }
+    if matches!(kind, FactoryKind::Vending | FactoryKind::OpenEdition) && (r.mint_price.0 != l.min_mint_price.0 || r.mint_price.1 < l.min_mint_price.1) {
+        v.push("min_mint_price");
+    }
+    if kind == FactoryKind::OpenEdition && r.num_tokens.is_none() && l.airdrop_mint_price.1 == 0 {
+        v.push("airdrop_mint_price");
+    }
+    v
+}
+/// requests that are refused for reasons of their own (nothing to do with governance)
+fn self_defeating(kind: FactoryKind, r: &CreateReq) -> bool {
+    match kind {
+        FactoryKind::Base => false,
+        FactoryKind::OpenEdition => r.num_tokens.is_none() && (r.end_after_secs.is_none() || r.mint_price.1 == 0),
+        _ => r.num_tokens.is_none(),
+    }
+}
+fn monitor_probe(kind: FactoryKind, r: &CreateReq, ok: bool, l: &FParams, ids: &BTreeSet<u64>, target: &str) -> Vec<(String, String)> {
+    let un = unmet(kind, r, l, ids);
+    let f = kind.name();
+    let mut out = vec![];
+    if ok {
+        for p in un {
+            out.push((format!("{}:creation-did-not-observe:{}", f, p), format!("governance set {} such that the request {:?} must be refused, but the minter was created (ledger {:?}, ids {:?})", p, r, l, ids)));
+        }
+    } else if un.is_empty() && !self_defeating(kind, r) {
+        out.push((format!("{}:creation-did-not-observe:{}", f, target), format!("the request {:?} respects everything governance supplied (ledger {:?}, ids {:?}) but was refused", r, l, ids)));
+    }
+    out
+}
+/// what a successful creation shows of the parameters it read
+fn monitor_created(kind: FactoryKind, r: &CreateReq, c: &Created, app: &App, l: &FParams, now: u64) -> Vec<(String, String)> {
+    let f = kind.name();
+    let mut out = vec![];
+    let code = app.contract_data(&c.minter).map(|d| d.code_id).unwrap_or(0);
+    if code != l.code_id {
+        out.push((format!("{}:creation-did-not-observe:code_id", f), format!("the created minter runs code {}, governance set {}", code, l.code_id)));
+    }
+    if r.trading_after_start_secs.is_none() {
+        // default trading start: sale start (base minter: now) + max_trading_offset_secs
+        let base = if kind == FactoryKind::Base { now } else { now + r.start_in_secs * 1_000_000_000 };
+        let want = base + l.offset * 1_000_000_000;
+        if let Ok(v) = query_json(app, &c.collection, &json!({ "collection_info": {} })) {
+            let got = v["start_trading_time"].as_str().and_then(|s| s.parse::<u64>().ok());
+            if got != Some(want) {
+                out.push((format!("{}:creation-did-not-observe:max_trading_offset_secs", f), format!("collection start_trading_time {:?}, expected {} (offset {} s)", got, want, l.offset)));
+            }
+        }
+    }
+    if kind == FactoryKind::Base {
+        if let Ok(v) = query_json(app, &c.minter, &json!({ "config": {} })) {
+            let p = &v["config"]["mint_price"];
+            if p["denom"].as_str() != Some(l.min_mint_price.0.as_str()) || p["amount"].as_str() != Some(l.min_mint_price.1.to_string().as_str()) {
+                out.push((format!("{}:creation-did-not-observe:min_mint_price", f), format!("base minter priced {}, governance set {:?}", p, l.min_mint_price)));
+            }
+        }
+    }
+    out
+}
+
 // ---------------------------------------------------------------- running a case
 
 struct Outcome {
@@ -507,15 +655,31 @@ fn factory_world(kind: FactoryKind, init: &FParams) -> Result<FactoryWorld, Stri
     let mut app = chain::new_app();
     let a = app.store_code(chain::sg721_base());
     let b = app.store_code(chain::sg721_updatable());
-    let minter_codes: Vec<u64> = kind.minters().iter().map(|m| app.store_code(m.code())).collect();
+    let mut minter_codes: Vec<u64> = kind.minters().iter().map(|m| app.store_code(m.code())).collect();
+    if minter_codes.len() == 1 {
+        // a second code id for the same minter code, so that `code_id` can change observably
+        minter_codes.push(app.store_code(kind.minters()[0].code()));
+    }
     let fc = app.store_code(kind.code());
-    chain::mint_coins(&mut app, CREATOR, u128::MAX / 4, NATIVE);
+    let c = app.store_code(chain::sg721_base());
+    assert_eq!(c, third_collection_code(kind));
+    for d in [NATIVE, IBC, OTHER] {
+        chain::mint_coins(&mut app, CREATOR, u128::MAX / 4, d);
+    }
     let factory = instantiate_factory(&mut app, kind, fc, init)?;
-    Ok(FactoryWorld { app, factory, sg721: vec![a, b], minter_codes })
+    Ok(FactoryWorld { app, factory, sg721: vec![a, b, c], minter_codes })
 }
 pub fn first_minter_code() -> u64 {
     3
 }
+fn n_minter_codes(kind: FactoryKind) -> u64 {
+    (kind.minters().len() as u64).max(2)
+}
+/// a third real collection code (sg721-base again), stored after the factory
+pub fn third_collection_code(kind: FactoryKind) -> u64 {
+    first_minter_code() + n_minter_codes(kind) + 1
+}
+const OTHER: &str = "uother";
 
 fn frame_violation(before: &[(Vec<u8>, Vec<u8>)], after: &[(Vec<u8>, Vec<u8>)], key: &[u8]) -> Option<String> {
     let strip = |v: &[(Vec<u8>, Vec<u8>)]| v.iter().filter(|(k, _)| k.as_slice() != key).cloned().collect::<Vec<_>>();
@@ -537,6 +701,10 @@ fn run_hist(kind: FactoryKind, init: &FParams, probes: &[u64], steps: &[Step], t
         // (base: fields the kind lacks are copied from `init`, so equal by construction)
     }
     let mut coq_steps = vec![];
+    // the ledger: what governance supplied so far, kept by the harness from the messages
+    // alone (accepted updates only; ids as a set) -- never read back from the contract
+    let mut ledger = init.clone();
+    let mut ledger_ids: BTreeSet<u64> = init.allowed.iter().copied().collect();
     let mut prev = q0;
     let q0s = coq_obs(&mut n, kind, &prev, init);
     for s in steps {
@@ -555,6 +723,9 @@ fn run_hist(kind: FactoryKind, init: &FParams, probes: &[u64], steps: &[Step], t
                 if ok && cur.params != prev.params {
                     nontrivial = true;
                 }
+                if ok {
+                    ledger_apply(kind, &mut ledger, &mut ledger_ids, u);
+                }
                 hist.push(format!("{}:update:{}", kind.name(), if ok { "ok" } else { "err" }));
                 coq_steps.push(format!("SUpd {} {} {}", coq_msg(&mut n, kind, u), coq_bool(ok), coq_obs(&mut n, kind, &cur, init)));
                 prev = cur;
@@ -572,6 +743,25 @@ fn run_hist(kind: FactoryKind, init: &FParams, probes: &[u64], steps: &[Step], t
                 hist.push(format!("{}:malformed:{}", kind.name(), if r.is_ok() { "ok" } else { "err" }));
                 coq_steps.push(format!("SBad {}", coq_obs(&mut n, kind, &cur, init)));
                 prev = cur;
+            }
+            Step::Probe { req: r, target } => {
+                let now = chain::now(&w.app);
+                let res = create_minter(&mut w.app, kind, &w.factory, CREATOR, r);
+                let ok = res.is_ok();
+                for v in monitor_probe(kind, r, ok, &ledger, &ledger_ids, target) {
+                    viol.push(v);
+                }
+                if let Ok(c) = &res {
+                    nontrivial = true;
+                    for v in monitor_created(kind, r, c, &w.app, &ledger, now) {
+                        viol.push(v);
+                    }
+                }
+                hist.push(format!("{}:probe-{}:{}", kind.name(), target, if ok { "ok" } else { "err" }));
+                match r.trading_after_start_secs {
+                    Some(t) => coq_steps.push(format!("SCreateT {} {} {}", coq_req(&mut n, kind, r), t, coq_bool(ok))),
+                    None => coq_steps.push(format!("SCreate {} {}", coq_req(&mut n, kind, r), coq_bool(ok))),
+                }
             }
             Step::Create(r) => {
                 let res = create_minter(&mut w.app, kind, &w.factory, CREATOR, r);
@@ -729,12 +919,83 @@ fn run_base_mint(bps: u64, paid: u128) -> Outcome {
     }
 }
 
+fn run_airdrop_shuffle(kind: MinterKind, price: u128, bps: u64, shuffle: u128) -> Outcome {
+    let fk = kind.factory();
+    let f = fk.name();
+    let mut w = setup_minter(kind);
+    let old = w.params.clone();
+    let has_shuffle = fk != FactoryKind::OpenEdition;
+    let mut u = Upd { airdrop_mint_price: Some((NATIVE.to_string(), price)), airdrop_mint_fee_bps: Some(bps), ..Default::default() };
+    if has_shuffle {
+        u.shuffle_fee = Some((NATIVE.to_string(), shuffle));
+    }
+    sudo_json(&mut w.app, &w.factory, &upd_json(fk, &u)).expect("update accepted");
+    let t = chain::now(&w.app) + 200 * 1_000_000_000;
+    chain::set_time(&mut w.app, t);
+    chain::mint_coins(&mut w.app, BUYER, shuffle.max(old.shuffle_fee.1) * 4 + 10, NATIVE);
+    let dev = old.dev_fee_address.clone();
+    let recipients = [LIQUIDITY_DAO, LAUNCHPAD_DAO, dev.as_str()];
+    let received = |app: &App| recipients.iter().map(|a| chain::balance(app, a, NATIVE)).sum::<u128>();
+    let funds = |a: u128| if a == 0 { vec![] } else { vec![cosmwasm_std::coin(a, NATIVE)] };
+    let mut viol = vec![];
+    let mut coq = vec![];
+    let mut hist = vec![];
+    let mint_to = json!({ "mint_to": { "recipient": BUYER } });
+    // airdrop at the OLD price (exact payment is demanded, so it must be refused when the price moved)
+    let old_price = old.airdrop_mint_price.1;
+    if old_price != price {
+        let r = exec_json(&mut w.app, CREATOR, &w.minter, &mint_to, &funds(old_price));
+        if r.is_ok() {
+            viol.push((format!("{}:mint-did-not-observe:airdrop_mint_price", f), format!("{}: airdrop paying the old price {} accepted, governance set {}", kind.name(), old_price, price)));
+        }
+        hist.push(format!("{}:airdrop-old-price:{}", kind.name(), if r.is_ok() { "ok" } else { "err" }));
+        coq.push(format!("CPayProbe true {} {} {}", price, old_price, coq_bool(r.is_ok())));
+    }
+    let before = received(&w.app);
+    let r = exec_json(&mut w.app, CREATOR, &w.minter, &mint_to, &funds(price));
+    let ok_new = r.is_ok();
+    if !ok_new {
+        viol.push((format!("{}:mint-did-not-observe:airdrop_mint_price", f), format!("{}: airdrop paying the new price {} refused: {:?}", kind.name(), price, r.err())));
+    } else {
+        let delta = received(&w.app) - before;
+        let want = price * bps as u128 / 10_000;
+        if delta != want {
+            viol.push((format!("{}:mint-did-not-observe:airdrop_mint_fee_bps", f), format!("{}: airdrop at {} under {} bps: fee recipients received {}, expected {}", kind.name(), price, bps, delta, want)));
+        }
+        coq.push(format!("CNetFee {} {} {}", price, bps, delta));
+    }
+    hist.push(format!("{}:airdrop-new-price:{}", kind.name(), if ok_new { "ok" } else { "err" }));
+    coq.push(format!("CPayProbe true {} {} {}", price, price, coq_bool(ok_new)));
+    if has_shuffle {
+        let sh = json!({ "shuffle": {} });
+        let old_fee = old.shuffle_fee.1;
+        for (label, paid) in [("old", old_fee), ("new", shuffle)] {
+            let r = exec_json(&mut w.app, BUYER, &w.minter, &sh, &funds(paid));
+            let want_ok = paid >= shuffle;
+            if r.is_ok() != want_ok {
+                viol.push((format!("{}:mint-did-not-observe:shuffle_fee", f), format!("{}: shuffle paying the {} fee {} gave ok={} although governance set {} ({:?})", kind.name(), label, paid, r.is_ok(), shuffle, r.as_ref().err())));
+            }
+            hist.push(format!("{}:shuffle-{}-fee:{}", kind.name(), label, if r.is_ok() { "ok" } else { "err" }));
+            coq.push(format!("CPayProbe false {} {} {}", shuffle, paid, coq_bool(r.is_ok())));
+        }
+    }
+    Outcome {
+        steps: coq.len() as u64 + 1,
+        coq: coq.join(" ;; "),
+        nontrivial: ok_new,
+        viol,
+        hist,
+        sample: format!("{}: airdrop price {} bps {} shuffle {}", kind.name(), price, bps, shuffle),
+    }
+}
+
 fn run_case(c: &Case) -> Outcome {
     match c {
         Case::Hist { kind, init, probes, steps, tag } => run_hist(*kind, init, probes, steps, tag),
         Case::Status { kind, flags } => run_status(*kind, flags),
         Case::MintFee { kind, price, bps, new_dev } => run_mint_fee(*kind, *price, *bps, *new_dev),
         Case::BaseMint { bps, paid } => run_base_mint(*bps, *paid),
+        Case::AirdropShuffle { kind, price, bps, shuffle } => run_airdrop_shuffle(*kind, *price, *bps, *shuffle),
     }
 }
 
@@ -766,7 +1027,8 @@ pub fn run(a: &Args) {
         }
         for (key, what) in &o.viol {
             nviol += 1;
-            if rep.violations.len() < 20 {
+            let fresh = !rep.violations.iter().any(|v| v.key == format!("C18:{}", key));
+            if rep.violations.len() < 20 || (fresh && rep.violations.len() < 60) {
                 let body = format!(
                     "{{\n \"property\": \"C18\",\n \"case\": {},\n \"violation\": {}\n}}\n",
                     serde_json::to_string(c).unwrap(),
@@ -1082,7 +1344,7 @@ fn std_req(kind: FactoryKind, fee: u128) -> CreateReq {
     r
 }
 fn minter_codes(kind: FactoryKind) -> Vec<u64> {
-    (0..kind.minters().len() as u64).map(|i| first_minter_code() + i).collect()
+    (0..n_minter_codes(kind)).map(|i| first_minter_code() + i).collect()
 }
 
 fn creation_scripts() -> Vec<Case> {
@@ -1287,10 +1549,260 @@ fn mint_cases(a: &Args, rng: &mut Rng) -> Vec<Case> {
             out.push(Case::MintFee { kind: k, price: *price, bps: *bps, new_dev: i % 2 == 0 });
         }
     }
+    for k in MinterKind::ALL {
+        if k == MinterKind::Base {
+            continue;
+        }
+        // (price, bps, shuffle): each differs from the defaults of every factory kind
+        for (price, bps, shuffle) in [(1_000_000u128, 3_000u64, 700_000_000u128), (250_000_000, 10_000, 500_000_001), (40_000, 0, 900_000_000)] {
+            out.push(Case::AirdropShuffle { kind: k, price, bps, shuffle });
+        }
+    }
     for bps in [10_000u64, 5_000, 1, 0, 20_000] {
         let fee = 50_000_000u128 * bps as u128 / 10_000;
         for paid in [fee.saturating_sub(1), fee, fee + 1, 50_000_000] {
             out.push(Case::BaseMint { bps, paid });
+        }
+    }
+    out
+}
+
+
+// ---------------------------------------------------------------- observation-probe histories
+
+fn probe(kind: FactoryKind, l: &FParams, coll: u64, target: &str, f: &dyn Fn(&mut CreateReq)) -> Step {
+    // the standard request: respects everything in `l`
+    let mut r = CreateReq::standard(kind, coll, &l.creation_fee);
+    r.num_tokens = Some(l.max_token_limit.min(150).max(1));
+    r.per_address_limit = l.max_per_address_limit.min(2).max(1);
+    r.mint_price = (l.min_mint_price.0.clone(), l.min_mint_price.1.max(1) + 5);
+    f(&mut r);
+    Step::Probe { req: r, target: target.to_string() }
+}
+
+/// The probes that discriminate the value `new` of every creation-relevant parameter from
+/// `old`; parameters in `only` (None = all) are probed.
+fn probes_after(kind: FactoryKind, old: &FParams, new: &FParams, third: u64, want: &dyn Fn(&str) -> bool) -> Vec<Step> {
+    let mut v = vec![];
+    let pr = |t: &str, f: &dyn Fn(&mut CreateReq)| probe(kind, new, third, t, f);
+    if want("creation_fee") {
+        let (d, a) = new.creation_fee.clone();
+        for amt in [a.saturating_sub(1), a, a + 1] {
+            let d2 = d.clone();
+            v.push(pr("creation_fee", &move |r| r.funds = vec![(d2.clone(), amt)]));
+        }
+        if old.creation_fee != new.creation_fee {
+            let o = old.creation_fee.clone();
+            v.push(pr("creation_fee", &move |r| r.funds = vec![o.clone()]));
+            // the new amount in the old denom
+            let od = old.creation_fee.0.clone();
+            if od != d {
+                v.push(pr("creation_fee", &move |r| r.funds = vec![(od.clone(), a)]));
+            }
+        }
+    }
+    if want("frozen") || want("code_id") {
+        v.push(pr(if want("frozen") { "frozen" } else { "code_id" }, &|_| {}));
+    }
+    if want("allowed_sg721_code_ids") {
+        v.push(pr("allowed_sg721_code_ids", &|r| r.collection_code_id = 1));
+        v.push(pr("allowed_sg721_code_ids", &|r| r.collection_code_id = 2));
+    }
+    if kind != FactoryKind::Base {
+        if want("max_token_limit") {
+            for x in [new.max_token_limit, new.max_token_limit + 1, old.max_token_limit] {
+                v.push(pr("max_token_limit", &move |r| r.num_tokens = Some(x)));
+            }
+        }
+        if want("max_per_address_limit") {
+            for x in [new.max_per_address_limit, new.max_per_address_limit + 1, old.max_per_address_limit] {
+                v.push(pr("max_per_address_limit", &move |r| r.per_address_limit = x));
+            }
+        }
+        if want("max_trading_offset_secs") {
+            for x in [new.offset, new.offset + 1, old.offset] {
+                v.push(pr("max_trading_offset_secs", &move |r| r.trading_after_start_secs = Some(x)));
+            }
+        }
+    }
+    if matches!(kind, FactoryKind::Vending | FactoryKind::OpenEdition) && want("min_mint_price") {
+        let d = new.min_mint_price.0.clone();
+        for x in [new.min_mint_price.1.saturating_sub(1), new.min_mint_price.1, old.min_mint_price.1] {
+            let d2 = d.clone();
+            v.push(pr("min_mint_price", &move |r| r.mint_price = (d2.clone(), x)));
+        }
+        if old.min_mint_price.0 != new.min_mint_price.0 {
+            // a price in the denom the minimum used to have
+            let od = old.min_mint_price.0.clone();
+            let amt = new.min_mint_price.1.max(old.min_mint_price.1) + 1;
+            v.push(pr("min_mint_price", &move |r| r.mint_price = (od.clone(), amt)));
+        }
+    }
+    if kind == FactoryKind::OpenEdition && want("airdrop_mint_price") {
+        v.push(pr("airdrop_mint_price", &|r| r.num_tokens = None));
+    }
+    v
+}
+
+fn probe_init(kind: FactoryKind, fee: &C) -> FParams {
+    let codes = minter_codes(kind);
+    let mut p = sane_init(kind, codes[0]);
+    p.allowed = vec![2, third_collection_code(kind)];
+    p.creation_fee = fee.clone();
+    p.max_per_address_limit = 3;
+    p
+}
+
+/// `mask` bits as in upd_of_mask; values are in the creation model's scope and differ from
+/// the initial ones, so that every supplied field is observable
+fn probe_update(kind: FactoryKind, mask: u32, init: &FParams, new_fee: &C) -> Upd {
+    let b = |i: u32| mask & (1 << i) != 0;
+    let codes = minter_codes(kind);
+    let mut u = Upd::default();
+    if b(0) {
+        u.code_id = Some(codes[1]);
+    }
+    if b(1) {
+        u.add = Some(vec![1]);
+    }
+    if b(2) {
+        u.rm = Some(vec![2]);
+    }
+    if b(3) {
+        u.frozen = Some(!init.frozen);
+    }
+    if b(4) {
+        u.creation_fee = Some(new_fee.clone());
+    }
+    if b(5) {
+        u.offset = Some(500);
+    }
+    if kind != FactoryKind::TokenMerge {
+        if b(6) {
+            u.min_mint_price = Some(n(150));
+        }
+        if b(7) {
+            u.mint_fee_bps = Some(2_000);
+        }
+    }
+    if kind != FactoryKind::Base {
+        if b(8) {
+            u.max_token_limit = Some(120);
+        }
+        if b(9) {
+            u.max_per_address_limit = Some(2);
+        }
+        if b(10) {
+            u.airdrop_mint_price = Some(n(if kind == FactoryKind::OpenEdition { 0 } else { 9 }));
+        }
+        if b(11) {
+            u.airdrop_mint_fee_bps = Some(3_000);
+        }
+        if b(12) {
+            if kind == FactoryKind::OpenEdition {
+                u.dev_fee_address = Some(NEW_DEV.to_string());
+            } else {
+                u.shuffle_fee = Some(n(7));
+            }
+        }
+        if kind == FactoryKind::OpenEdition && b(13) {
+            u.ext_min_mint_price = Some(n(1));
+        }
+    }
+    u
+}
+
+const PROBE_PARAMS: [&str; 9] = [
+    "creation_fee", "frozen", "code_id", "allowed_sg721_code_ids", "max_token_limit", "max_per_address_limit",
+    "max_trading_offset_secs", "min_mint_price", "airdrop_mint_price",
+];
+fn mask_params(mask: u32) -> Vec<&'static str> {
+    let mut v = vec![];
+    let names: [(u32, &str); 10] = [
+        (0, "code_id"), (1, "allowed_sg721_code_ids"), (2, "allowed_sg721_code_ids"), (3, "frozen"), (4, "creation_fee"),
+        (5, "max_trading_offset_secs"), (6, "min_mint_price"), (8, "max_token_limit"), (9, "max_per_address_limit"), (10, "airdrop_mint_price"),
+    ];
+    for (i, nm) in names {
+        if mask & (1 << i) != 0 {
+            v.push(nm);
+        }
+    }
+    v
+}
+
+fn probe_hists(a: &Args, rng: &mut Rng) -> Vec<Case> {
+    let mut out = vec![];
+    // creation-fee transitions: native -> IBC, IBC -> native, IBC -> another IBC denom, same denom
+    let fees: [(C, C); 5] = [
+        (n(1000), (IBC.to_string(), 700)),
+        ((IBC.to_string(), 700), n(1300)),
+        ((IBC.to_string(), 700), (OTHER.to_string(), 900)),
+        ((IBC.to_string(), 700), (IBC.to_string(), 1100)),
+        (n(1000), n(1600)),
+    ];
+    for kind in FactoryKind::ALL {
+        let third = third_collection_code(kind);
+        // 1. directed: every fee transition alone, both directions of frozen
+        for (i, (f0, f1)) in fees.iter().enumerate() {
+            let init = probe_init(kind, f0);
+            let u = Upd { creation_fee: Some(f1.clone()), ..Default::default() };
+            let mut l = init.clone();
+            l.creation_fee = f1.clone();
+            let mut steps = vec![Step::Upd(u)];
+            steps.extend(probes_after(kind, &init, &l, third, &|p| p == "creation_fee"));
+            // and back again: the factory must now want the first fee
+            steps.push(Step::Upd(Upd { creation_fee: Some(f0.clone()), ..Default::default() }));
+            steps.extend(probes_after(kind, &l, &init, third, &|p| p == "creation_fee"));
+            out.push(hist(kind, init, steps, &format!("fee-transition-{}", i)));
+        }
+        // 1b. the minimum mint price moves from an IBC denom (possible at instantiation only) to ustars
+        if matches!(kind, FactoryKind::Vending | FactoryKind::OpenEdition) {
+            let mut init = probe_init(kind, &n(1000));
+            init.min_mint_price = (IBC.to_string(), 100);
+            let mut l = init.clone();
+            l.min_mint_price = n(150);
+            let mut steps = probes_after(kind, &init, &init, third, &|p| p == "min_mint_price");
+            steps.push(Step::Upd(Upd { min_mint_price: Some(n(150)), ..Default::default() }));
+            steps.extend(probes_after(kind, &init, &l, third, &|p| p == "min_mint_price"));
+            // an attempt to move it back is refused and must leave creations on ustars
+            steps.push(Step::Upd(Upd { min_mint_price: Some((IBC.to_string(), 100)), ..Default::default() }));
+            steps.extend(probes_after(kind, &init, &l, third, &|p| p == "min_mint_price"));
+            out.push(hist(kind, init, steps, "min-price-denom"));
+        }
+        // 2. every subset of the optional fields, then the probes of the supplied parameters
+        //    plus a sample of the omitted ones (which must still show their old values)
+        let xb = ext_bits(kind);
+        let cm = common_masks(kind);
+        let mut masks: Vec<u32> = vec![];
+        if a.thorough() {
+            for c in &cm {
+                for x in 0..(1u32 << xb) {
+                    masks.push(c | (x << N_COMMON));
+                }
+            }
+        } else {
+            for c in &cm {
+                masks.push(c | ((if xb == 0 { 0 } else { rng.below(1 << xb) as u32 }) << N_COMMON));
+            }
+            for x in 0..(1u32 << xb) {
+                masks.push(*rng.pick(&cm) | (x << N_COMMON));
+            }
+        }
+        for (i, mask) in masks.iter().enumerate() {
+            let (f0, f1) = &fees[i % fees.len()];
+            let mut init = probe_init(kind, f0);
+            // a supplied `frozen` must be what un-freezes (most histories) or freezes the factory
+            init.frozen = mask & 8 != 0 && i % 4 != 3;
+            let u = probe_update(kind, *mask, &init, f1);
+            let mut l = init.clone();
+            let mut ids: BTreeSet<u64> = init.allowed.iter().copied().collect();
+            ledger_apply(kind, &mut l, &mut ids, &u);
+            let supplied = mask_params(*mask);
+            let extra = *rng.pick(&PROBE_PARAMS);
+            let extra2 = *rng.pick(&PROBE_PARAMS);
+            let mut steps = vec![Step::Upd(u)];
+            steps.extend(probes_after(kind, &init, &l, third, &|p| supplied.contains(&p) || p == extra || p == extra2));
+            out.push(hist(kind, init, steps, "probes"));
         }
     }
     out
@@ -1301,6 +1813,7 @@ fn gen_cases(a: &Args) -> Vec<Case> {
     let p = pools();
     let mut v = corpus();
     v.extend(creation_scripts());
+    v.extend(probe_hists(a, &mut rng));
     v.extend(subset_hists(a, &mut rng, &p));
     v.extend(random_hists(a, &mut rng, &p));
     v.extend(status_cases(a, &mut rng));
